@@ -22,6 +22,8 @@ import (
 //   enc:mandatory  the key list of an SVCB/HTTPS "mandatory" value in another order / with a repeated key
 //   enc:cut-short  RDATA that ends at a field boundary before the last field, the missing fields being
 //                  zero / empty in the twin
+//   enc:svcparam   (round 8, svcparam_test.go) candidate values for every SvcParam key: whatever the decoder
+//                  takes must be reflexive, equal to its copy and to a second decoding of the same octets
 //
 // A re-spelled field is carried in the case as an opaque wm.Rest field in the slot of the original one
 // (wm.EncodeRR writes fields in sequence, whatever their kinds), so the case stays a plain wm.Rec and
@@ -377,7 +379,9 @@ func genLenient(t *rapid.T, o *gen.Opts) pairCase {
 			return c
 		}
 	}
-	switch rapid.IntRange(0, 2).Draw(t, "lenientkind") {
+	switch rapid.IntRange(0, 3).Draw(t, "lenientkind") {
+	case 3:
+		return genSvcParam(t, o) // a candidate value for one SvcParam key (svcparam_test.go)
 	case 0:
 		a := gen.RecOfType(t, rapid.SampledFrom(bitmapTypes).Draw(t, "bmtype"), o)
 		i := bitmapField(a)
@@ -540,4 +544,5 @@ func init() {
 		return comparePair(pairCase{A: a, B: probeRec(wm.TSRV, f(1)), C: probeRec(wm.TSRV, f(1), f(0)), How: "enc:cut-short"}, noneLive, true)
 	})
 	pbt.RegisterEnum(pbt.Enum[pairCase]{Name: "every-lenient-encoding", Exhaustive: true, Each: eachLenient, Check: checkPair})
+	pbt.RegisterEnum(pbt.Enum[pairCase]{Name: "every-svcparam-value", Exhaustive: true, Each: eachSvcParam, Check: checkPair})
 }
